@@ -1,0 +1,18 @@
+// Copyright (c) 2025, Peter Ohler, All rights reserved.
+
+//go:build verif
+
+package repl
+
+// VerifHook, when not nil, is called at every file system step (before and
+// after each open, write, close, rename and truncate) made while the history,
+// the stash or the configuration file is updated. The point names the step
+// and arg is the name of the file involved. Only compiled in with the verif
+// build tag and only used by external verification harnesses.
+var VerifHook func(point string, arg any)
+
+func verifPoint(p string, a any) {
+	if VerifHook != nil {
+		VerifHook(p, a)
+	}
+}
